@@ -86,6 +86,7 @@ type simClient struct {
 	pos       int
 	sendbuf   []byte
 	cuts      []int
+	loops     int
 	sent      int
 	sendOp    *Op
 	pending   []*Op
@@ -157,6 +158,8 @@ type World struct {
 	stagesMu   sync.Mutex
 	inflight   int
 	turnLog    []int
+	curBuckets int
+	scanBefore map[string]bool
 	res        *RunResult
 	orderPos   int
 	cands      [maxTasks]cand
@@ -397,6 +400,46 @@ func (w *World) syncAdmin(f func()) {
 	for i := 0; i < 100000 && aw.busy.Load(); i++ {
 		synctest.Wait()
 		if !aw.busy.Load() {
+			break
+		}
+		n, _ := w.sched.snapshot(&w.cands, &w.blocked)
+		best := -1
+		for j := 0; j < n; j++ {
+			if w.blocked[j] {
+				continue
+			}
+			if best < 0 || candLess(&w.cands[j], &w.cands[best]) {
+				best = j
+			}
+		}
+		if best < 0 {
+			time.Sleep(time.Millisecond)
+			continue
+		}
+		w.sched.releaseSlot(w.cands[best].slot)
+	}
+	synctest.Wait()
+}
+
+// syncAdminPass runs f on a fresh goroutine registered as a task and drives the
+// scheduler (lowest-named enabled candidate, no tape) until it has completed.
+// Used by oracles that start further emulator instances at the end of a run.
+func (w *World) syncAdminPass(f func()) {
+	var done atomic.Bool
+	go func() {
+		w.sched.taskBegin("admin", 99)
+		defer w.sched.taskEnd()
+		defer done.Store(true)
+		defer func() {
+			if r := recover(); r != nil {
+				w.sched.recordPanic(fmt.Sprint(r), "oracle admin op")
+			}
+		}()
+		f()
+	}()
+	for i := 0; i < 200000 && !done.Load(); i++ {
+		synctest.Wait()
+		if done.Load() {
 			break
 		}
 		n, _ := w.sched.snapshot(&w.cands, &w.blocked)
@@ -857,6 +900,27 @@ func (w *World) clientStep(c *simClient) {
 		} else {
 			args := it.Args
 			for i, a := range args {
+				if string(a) == "$cursor" {
+					cur := "0"
+					for i := len(w.history) - 1; i >= 0; i-- {
+						if o := w.history[i]; o.Client == c.idx && o.Item == it && o.Return >= 0 {
+							if o.Reply.K == KArray && len(o.Reply.A) == 2 {
+								cur = o.Reply.A[0].S
+								if o.Reply.A[0].K == KInt {
+									cur = strconv.FormatInt(o.Reply.A[0].I, 10)
+								}
+							}
+							break
+						}
+						if o := w.history[i]; o.Client == c.idx && o.Item != it {
+							break
+						}
+					}
+					args2 := append([]B(nil), args...)
+					args2[i] = B(cur)
+					args = args2
+					continue
+				}
 				if string(a) == "$prev" {
 					// the bulk/simple string this connection received last
 					prev := ""
@@ -1167,6 +1231,19 @@ func (w *World) harvest() {
 			if v := w.onReply(op); v != nil {
 				w.viol = v
 				return
+			}
+			if op.Item.Tag == "scanloop" && op.Reply.K == KArray && len(op.Reply.A) == 2 && w.viol == nil {
+				cur := op.Reply.A[0].S
+				if op.Reply.A[0].K == KInt {
+					cur = strconv.FormatInt(op.Reply.A[0].I, 10)
+				}
+				if cur != "0" && c.loops < int(op.Item.N) {
+					// the iteration goes on: the same script item is sent again with the new cursor
+					c.loops++
+					c.pos = op.Idx
+				} else {
+					c.loops = 0
+				}
 			}
 			if w.plan.Knobs.Turns {
 				// no two commands of a turn-taking history execute at the same
